@@ -4,12 +4,14 @@ import (
 	"fmt"
 	"io"
 	"net/http"
+	"strings"
 	"sync"
 	"sync/atomic"
 	"time"
 
 	vegeta "github.com/tsenart/vegeta/v12/lib"
 
+	"vharness/attackctl"
 	"vharness/kit"
 	"vharness/run"
 )
@@ -150,5 +152,73 @@ func drainScenario(c *run.Ctx, s *kit.Summary, r *kit.Rng) {
 			}
 		}
 		close(stop)
+	}
+}
+
+// idleScenario: the pool grows on demand to exactly max-workers, everything finishes and is consumed, then nothing
+// happens for a few seconds (a quiet spell of the pacer). Afterwards the pool must still offer its whole capacity:
+// with one hit in flight a second released hit starts without waiting for the first ("workers are added on demand up
+// to the maximum" — at any time of the attack, not only in its first seconds).
+func idleScenario(c *run.Ctx, s *kit.Summary, r *kit.Rng) {
+	for i := 0; i < c.N(1, 6); i++ {
+		w := uint64(r.Pick(2))
+		m := uint64(2 + r.Pick(2))
+		quiet := time.Duration(3200+r.Pick(1500)) * time.Millisecond
+		ctl := attackctl.New(w, m, i%2 == 1)
+		in := map[string]interface{}{"workers": w, "max_workers": m, "quiet_spell": quiet.String(),
+			"scenario": "grow to max-workers, finish and consume everything, stay quiet, then release two hits"}
+		ok := true
+		step := func(f func() bool) {
+			if ok && !f() {
+				ok = false
+			}
+			if _, q := ctl.Quiesce(); !q {
+				ok = false
+			}
+		}
+		if _, q := ctl.Quiesce(); !q {
+			s.Skipped["idle: quiescence not established"]++
+			continue
+		}
+		for k := uint64(0); k < m; k++ {
+			step(func() bool { return ctl.ReleasePace(false) })
+		}
+		o, _ := ctl.Quiesce()
+		if !ok || uint64(len(o.InTransport)) != m {
+			s.Skipped["idle: pool did not grow to max (judged elsewhere)"]++
+		} else {
+			for _, q := range append([]uint64{}, o.InTransport...) {
+				step(func() bool { return ctl.ReleaseTransport(q) })
+			}
+			for k := uint64(0); k < m; k++ {
+				step(func() bool { return strings.HasPrefix(ctl.Receive(), "g") })
+			}
+			time.Sleep(quiet)
+			step(func() bool { return ctl.ReleasePace(false) })
+			o1, _ := ctl.Quiesce()
+			step(func() bool { return ctl.ReleasePace(false) })
+			o2, _ := ctl.Quiesce()
+			s.Case(fmt.Sprint("idle:", i), true)
+			s.Count("idle:quiet_spell_runs")
+			if ok && len(o1.InTransport) == 1 && len(o2.InTransport) < 2 {
+				s.Violate(kit.Violation{Kind: "free_capacity_not_used", What: "after a quiet spell the pacer released a hit while only one of max-workers was busy, but it did not start without the first one finishing",
+					Input: in, Expected: "2 requests in the transport", Observed: fmt.Sprint(len(o2.InTransport))})
+			}
+		}
+		// drain
+		ctl.Stop()
+		for guard := 0; guard < 1000; guard++ {
+			oo, _ := ctl.Quiesce()
+			switch {
+			case oo.PaceBlocked:
+				ctl.ReleasePace(true)
+			case len(oo.InTransport) > 0:
+				ctl.ReleaseTransport(oo.InTransport[0])
+			default:
+				if ctl.Receive() == "c" {
+					guard = 1000
+				}
+			}
+		}
 	}
 }
